@@ -23,3 +23,11 @@ add("C13", "metamorphic runtime monitor on every registered model (shipped + "
     "(bitwise) comparisons wherever the arithmetic is exact by construction.",
     "Dyadic abscissa grid and power-of-two factors make bitwise comparison "
     "legitimate; third-party registry entries are logged, not judged.")
+add("C08", "boundary taps inside POC_METHODS observing raw estimator returns; "
+    "validity / invariance / accuracy / fallback oracle over generated model "
+    "curves and enumerated + random degenerate arrays",
+    "Held on the executions observed: thousands of curve estimates under "
+    "scale/shift transforms and ~80k degenerate-array estimates per quick run "
+    "(all arrays over {0,1,2} up to length 8 enumerated completely).",
+    "Accuracy fractions and the clean-curve class are the harness' stated "
+    "ones (see DESIGN C08); invariance judged for curves with a baseline.")
